@@ -19,7 +19,8 @@
   (C) differential only (`unproved_classes` in the evidence):
       add addi sub (trapping) · mult multu div divu madd maddu msub msubu mul · mfhi mflo mthi mtlo · movn movz · clz clo ·
       lwl lwr swl swr ll sc pref sync · teq syscall break rdhwr · jr jal jalr bal bgezal bltzal (see the known findings:
-      these evaluate the target / condition / link AFTER the delay slot) · all of PowerPC.
+      these evaluate the target / condition / link AFTER the delay slot) · all of PowerPC (only the rlwinm mask constant is
+      proved: `ppc_mask_closed_form`).
 
   `StateOK σ`: the IL state defines `$at…$ra`, `$hi`, `$lo` as reduced 32-bit constants.  `absState σ` is the machine state
   it stands for (GPR[0] = 0; the scalar `$zero` is not part of it).  `Eqv u a b`: equal register files (HI/LO unless `u`, i.e.
@@ -27,6 +28,7 @@
   (no trap, no unmapped byte): then the lifted IL runs to completion and yields exactly that state and that next pc.
 -/
 import FalconProofs.C02.InstrOK
+import FalconProofs.C02.PpcMask
 
 namespace Falcon.C02
 open Falcon Falcon.Isa.Mips
@@ -90,6 +92,12 @@ theorem zero_reads_zero (s : St) (i : Reg) (v : Word) : (s.w i v).r 0 = 0 := by
 theorem scalar_write_is_register_write (σ : State) (rd : Reg) (v : Word) :
     Eqv false (absState (σ.set (regName rd) (Const.ofBV v))) ((absState σ).w rd v) :=
   absState_set_reg σ rd v
+
+/-- PowerPC `rlwinm`/`slwi`: the mask constant the lifter computes at lift time (`maskLifter`, the mirror of `rlwinm_`) is the
+    manual's `MASK(mb, me)` — ones from bit `mb` through bit `me`, wrapping — for all 32 x 32 field values.  (Before the repair
+    88b90c0 the lifter's mask was one bit short.) -/
+theorem ppc_mask_closed_form : ∀ mb me : Fin 32, (Isa.Ppc.mask mb.val me.val).toNat = Isa.Ppc.maskLifter mb.val me.val :=
+  Isa.Ppc.mask_eq_maskLifter
 
 /-! ### non-vacuity: concrete words are lifted by the mirror and the hypotheses are satisfiable -/
 
